@@ -26,6 +26,7 @@
 (*   "typednil" typed nil pointer "nan" NaN   "big" an Int out of range    *)
 (*   "badenum"  an internal value no enum value has                        *)
 (*   "nilitem"  the natural list with its second element nil               *)
+(*   "wrongitem" ... with its second element a value of a foreign kind     *)
 (*   rt |-> runtime type name for abstract positions ("" = unresolvable),  *)
 (*   rts |-> <<...>> per list element, len |-> list length                 *)
 (***************************************************************************)
@@ -202,6 +203,11 @@ ExecField(E, ot, g, src, path) ==
                [] oc.k = "wrong" -> CompleteV(E, fd.type, g, [k |-> "wrong"], path)
                [] oc.k = "big" -> CompleteV(E, fd.type, g, IntV("over32"), path)
                [] oc.k = "badenum" -> CompleteV(E, fd.type, g, [k |-> "eint", v |-> "nope"], path)
+               [] oc.k = "wrongitem" ->
+                    LET nv == ValueFor(E.S, fd.type, ctag, fn, oc)
+                    IN CompleteV(E, fd.type, g,
+                                 IF nv.k = "list" /\ Len(nv.items) >= 2
+                                 THEN [nv EXCEPT !.items[2] = [k |-> "wrong"]] ELSE nv, path)
                [] oc.k = "nilitem" ->
                     LET nv == ValueFor(E.S, fd.type, ctag, fn, oc)
                     IN CompleteV(E, fd.type, g,
@@ -272,13 +278,17 @@ CompleteV(E, t, g, rv, path) ==
       \* value; it must name a possible type
       LET tc == IF E.S.types[t.n].noRT THEN <<>>
                 ELSE <<[p |-> StripIdx(path), v |-> IF rv.k = "src" THEN rv.tag ELSE "?"]>> IN
-      IF rv.k # "src" \/ rv.rt \notin PossibleTypes(E.S, t.n)
+      \* without a type resolver the implementers' IsTypeOf are tried in declaration order: a value every
+      \* member accepts (runtime type "*") resolves to the first declared member of a union
+      LET art == IF rv.k = "src" /\ rv.rt = "*" /\ E.S.types[t.n].noRT /\ kd = "UNION"
+                 THEN E.S.types[t.n].members[1] ELSE (IF rv.k = "src" THEN rv.rt ELSE "") IN
+      IF rv.k # "src" \/ art \notin PossibleTypes(E.S, t.n)
       THEN [Fail(path, FALSE) EXCEPT !.tcalls = tc]
-      ELSE LET r == ExecSel(E, rv.rt, MergedSels(g), rv, path)
+      ELSE LET r == ExecSel(E, art, MergedSels(g), rv, path)
            IN [r EXCEPT !.tcalls = tc \o @]
     ELSE \* object type: any value is a source; a value of a foreign Go kind is tagged "?".
          \* An object type with IsTypeOf refuses values that are not of that type.
-      IF E.S.types[t.n].isTypeOf /\ (rv.k # "src" \/ rv.rt # t.n) THEN Fail(path, FALSE)
+      IF E.S.types[t.n].isTypeOf /\ (rv.k # "src" \/ (rv.rt # t.n /\ rv.rt # "*")) THEN Fail(path, FALSE)
       ELSE ExecSel(E, t.n, MergedSels(g), IF rv.k = "src" THEN rv ELSE [k |-> "src", tag |-> "?", rt |-> t.n], path)
 
 \* ------------------------------------------------------------- requests
